@@ -106,6 +106,7 @@ func taint(gs []leak.G) string {
 
 // runSend executes one planned Send. Returns (violation, inconclusive, nontrivial, classes).
 func runSend(x *model.Exec, p *sendPlan) (string, string, bool, []string) {
+	traceMsg := ""
 	script := bgen.ScriptFor(x, p.S.Script)
 	lin := x.NewSend(script)
 	exp := x.Expect(p.S.ET, lin)
@@ -257,11 +258,14 @@ func runSend(x *model.Exec, p *sendPlan) (string, string, bool, []string) {
 			return fmt.Sprintf("goroutines of a finished Send are still alive %s after all nodes returned:\n%s", promptBound, taint(left)), "", false, nil
 		}
 		hits, _ = ctl.Snapshot()
-		if msg := checkTrace(hits); msg != "" {
-			return "protocol trace: " + msg, "", false, nil
-		}
+		traceMsg = checkTrace(hits)
 	}
 	var classes []string
+	if traceMsg != "" {
+		// the hook trace does not follow the shape of the pinned implementation: recorded, never a violation
+		// (the statement constrains what Send does for its caller, not how its goroutines are organised)
+		classes = append(classes, "trace_shape_differs_from_pinned_implementation")
+	}
 	classes = append(classes, [...]string{"cancel=never", "cancel=before", "cancel=hook", "cancel=harness"}[p.Mode])
 	if at != "" {
 		classes = append(classes, "cancel_landed@"+at)
